@@ -149,6 +149,105 @@ impl SerializeMap for RecMap<'_> {
 }
 
 // ------------------------------------------------------------------------------------------
+// token-stream deserializer: a self-delimiting format (end markers, like JSON) whose
+// MapAccess / SeqAccess report either the exact number of remaining entries or no size hint
+// ------------------------------------------------------------------------------------------
+
+struct TokDe<'a> {
+    toks: &'a [Tok],
+    pos: usize,
+    /// report Some(remaining) from size_hint (true) or None (false)
+    hint: bool,
+}
+
+impl<'a> TokDe<'a> {
+    fn new(toks: &'a [Tok], hint: bool) -> Self {
+        TokDe { toks, pos: 0, hint }
+    }
+    fn peek(&self) -> Option<&Tok> {
+        self.toks.get(self.pos)
+    }
+    /// entries (tokens / per) up to the end marker of the innermost open container
+    fn remaining(&self, per: usize) -> usize {
+        let mut n = 0;
+        for t in &self.toks[self.pos.min(self.toks.len())..] {
+            if matches!(t, Tok::MapEnd | Tok::SeqEnd) {
+                break;
+            }
+            n += 1;
+        }
+        n / per
+    }
+    fn all_consumed(&self) -> bool {
+        self.pos == self.toks.len()
+    }
+}
+
+impl<'de> serde::Deserializer<'de> for &mut TokDe<'_> {
+    type Error = VErr;
+    fn deserialize_any<V: serde::de::Visitor<'de>>(self, visitor: V) -> Result<V::Value, VErr> {
+        use serde::de::Error;
+        let t = self.peek().cloned().ok_or_else(|| VErr::custom("unexpected end of token stream"))?;
+        self.pos += 1;
+        match t {
+            Tok::U8(x) => visitor.visit_u8(x),
+            Tok::U16(x) => visitor.visit_u16(x),
+            Tok::U32(x) => visitor.visit_u32(x),
+            Tok::MapStart(_) => visitor.visit_map(TokAcc { de: self }),
+            Tok::SeqStart(_) => visitor.visit_seq(TokAcc { de: self }),
+            other => Err(VErr::custom(format!("unexpected token {other:?}"))),
+        }
+    }
+    serde::forward_to_deserialize_any! {
+        bool i8 i16 i32 i64 i128 u8 u16 u32 u64 u128 f32 f64 char str string bytes byte_buf option unit
+        unit_struct newtype_struct seq tuple tuple_struct map struct enum identifier ignored_any
+    }
+}
+
+struct TokAcc<'b, 'a> {
+    de: &'b mut TokDe<'a>,
+}
+
+impl<'de> serde::de::MapAccess<'de> for TokAcc<'_, '_> {
+    type Error = VErr;
+    fn next_key_seed<K: serde::de::DeserializeSeed<'de>>(&mut self, seed: K) -> Result<Option<K::Value>, VErr> {
+        if matches!(self.de.peek(), Some(Tok::MapEnd)) {
+            self.de.pos += 1;
+            return Ok(None);
+        }
+        seed.deserialize(&mut *self.de).map(Some)
+    }
+    fn next_value_seed<V: serde::de::DeserializeSeed<'de>>(&mut self, seed: V) -> Result<V::Value, VErr> {
+        seed.deserialize(&mut *self.de)
+    }
+    fn size_hint(&self) -> Option<usize> {
+        if self.de.hint {
+            Some(self.de.remaining(2))
+        } else {
+            None
+        }
+    }
+}
+
+impl<'de> serde::de::SeqAccess<'de> for TokAcc<'_, '_> {
+    type Error = VErr;
+    fn next_element_seed<T: serde::de::DeserializeSeed<'de>>(&mut self, seed: T) -> Result<Option<T::Value>, VErr> {
+        if matches!(self.de.peek(), Some(Tok::SeqEnd)) {
+            self.de.pos += 1;
+            return Ok(None);
+        }
+        seed.deserialize(&mut *self.de).map(Some)
+    }
+    fn size_hint(&self) -> Option<usize> {
+        if self.de.hint {
+            Some(self.de.remaining(1))
+        } else {
+            None
+        }
+    }
+}
+
+// ------------------------------------------------------------------------------------------
 // case
 // ------------------------------------------------------------------------------------------
 
@@ -227,7 +326,11 @@ struct Stats {
     target_too_small: u64,
     bincode_roundtrips: u64,
     value_roundtrips: u64,
+    token_roundtrips: u64,
     checks: u64,
+    c05_streams: u64,
+    c05_with_repeats: u64,
+    c05_skipped_overflow: u64,
 }
 
 struct Out {
@@ -333,6 +436,22 @@ fn run_map<const N: usize, const M: usize>(case: &Case) -> Out {
         other => fail(format!("deserialize (value deserializer) into capacity {M} failed: {:?}", other.map(|r| r.map(|_| ()))),
         ),
     }
+    // (2b) the recorded token stream through a self-delimiting format, with and without size hints
+    for hint in [true, false] {
+        let mut de = TokDe::new(&toks, hint);
+        let r = silent(|| Map::<u8, u32, M>::deserialize(&mut de));
+        out.st.checks += 1;
+        out.st.token_roundtrips += 1;
+        match r {
+            Ok(Ok(d)) => {
+                let got: BTreeMap<u8, u32> = d.iter().map(|(k, v)| (*k, *v)).collect();
+                if !(d == m) || got != model || d.len() != len || !de.all_consumed() {
+                    fail(format!("token stream (size hints {}) into capacity {M} gives {got:?} (len {}, input fully consumed: {}), original {model:?}", if hint { "exact" } else { "absent" }, d.len(), de.all_consumed()));
+                }
+            }
+            other => fail(format!("deserialize (token stream, size hints {}) into capacity {M} failed: {:?}", if hint { "exact" } else { "absent" }, other.map(|r| r.map(|_| ())))),
+        }
+    }
     // (3) bincode
     let mut buf = [0u8; 512];
     let cfg = bincode::config::legacy();
@@ -437,6 +556,21 @@ fn run_set<const N: usize, const M: usize>(case: &Case) -> Out {
         }
         other => fail(format!("deserialize (value deserializer) into capacity {M} failed: {:?}", other.map(|r| r.map(|_| ())))),
     }
+    for hint in [true, false] {
+        let mut de = TokDe::new(&toks, hint);
+        let r = silent(|| Set::<u16, M>::deserialize(&mut de));
+        out.st.checks += 1;
+        out.st.token_roundtrips += 1;
+        match r {
+            Ok(Ok(d)) => {
+                let got: std::collections::BTreeSet<u16> = d.iter().copied().collect();
+                if !(d == s) || got != model || d.len() != len || !de.all_consumed() {
+                    fail(format!("token stream (size hints {}) into capacity {M} gives {got:?} (input fully consumed: {}), original {model:?}", if hint { "exact" } else { "absent" }, de.all_consumed()));
+                }
+            }
+            other => fail(format!("deserialize (token stream, size hints {}) into capacity {M} failed: {:?}", if hint { "exact" } else { "absent" }, other.map(|r| r.map(|_| ())))),
+        }
+    }
     let mut buf = [0u8; 512];
     let cfg = bincode::config::legacy();
     let r = silent(|| bincode::serde::encode_into_slice(&s, &mut buf, cfg));
@@ -475,14 +609,161 @@ macro_rules! grid {
     };
 }
 
+static PROP05: std::sync::atomic::AtomicBool = std::sync::atomic::AtomicBool::new(false);
+
 fn run_case(case: &Case) -> Out {
     let n = SRC_CAPS[case.cap as usize % SRC_CAPS.len()];
     let m = DST_CAPS[case.dcap as usize % DST_CAPS.len()];
+    if PROP05.load(std::sync::atomic::Ordering::Relaxed) {
+        return grid!(run_c05, 0, m, case, [0]);
+    }
     if case.is_set {
         grid!(run_set, n, m, case, [0, 1, 2, 3, 5, 8])
     } else {
         grid!(run_map, n, m, case, [0, 1, 2, 3, 5, 8])
     }
+}
+
+// ------------------------------------------------------------------------------------------
+// C05 through the serde feature: deserializing is an operation like any other, and the input
+// it reads need not come from this crate's serializer (repeated keys are legal input for a
+// map format). Whatever the stream holds, the resulting container must satisfy C05's standing
+// invariants: keys pairwise unequal, len() == number of yielded entries, is_empty() <=> len()==0,
+// len() <= capacity(), every yielded key looks up the value yielded with it.
+// ------------------------------------------------------------------------------------------
+
+fn c05_invariants_map<const M: usize>(d: &Map<u8, u32, M>, what: &str) -> Option<String> {
+    let seq: Vec<(u8, u32)> = d.iter().map(|(k, v)| (*k, *v)).collect();
+    for (i, a) in seq.iter().enumerate() {
+        if seq[i + 1..].iter().any(|b| b.0 == a.0) {
+            return Some(format!("{what}: key {} is yielded twice by iteration: {seq:?}", a.0));
+        }
+    }
+    if seq.len() != d.len() {
+        return Some(format!("{what}: len()={} but iteration yields {} entries", d.len(), seq.len()));
+    }
+    if d.is_empty() != (d.len() == 0) || d.len() > d.capacity() {
+        return Some(format!("{what}: len()={} is_empty()={} capacity()={}", d.len(), d.is_empty(), d.capacity()));
+    }
+    for (k, v) in &seq {
+        if d.get(k) != Some(v) {
+            return Some(format!("{what}: get({k}) = {:?} but iteration yields ({k}, {v})", d.get(k)));
+        }
+    }
+    None
+}
+
+fn c05_invariants_set<const M: usize>(d: &Set<u16, M>, what: &str) -> Option<String> {
+    let seq: Vec<u16> = d.iter().copied().collect();
+    for (i, a) in seq.iter().enumerate() {
+        if seq[i + 1..].contains(a) {
+            return Some(format!("{what}: element {a} is yielded twice by iteration: {seq:?}"));
+        }
+    }
+    if seq.len() != d.len() || d.is_empty() != (d.len() == 0) || d.len() > d.capacity() {
+        return Some(format!("{what}: len()={} is_empty()={} capacity()={} iteration yields {}", d.len(), d.is_empty(), d.capacity(), seq.len()));
+    }
+    for k in &seq {
+        if !d.contains(k) || d.get(k) != Some(k) {
+            return Some(format!("{what}: yielded element {k} cannot be looked up"));
+        }
+    }
+    None
+}
+
+/// One C05 case: `case.ops` is the entry stream (key byte, value byte), target capacity from `dcap`.
+fn run_c05<const N: usize, const M: usize>(case: &Case) -> Out {
+    let mut out = Out { viol: None, nontrivial: false, st: Stats::default(), trace: vec![] };
+    let u = case.univ.max(1) as usize;
+    let cfg = bincode::config::legacy();
+    if !case.is_set {
+        let entries: Vec<(u8, u32)> = case.ops.iter().enumerate().map(|(i, o)| (((o[1] as usize * u) >> 8) as u8, ((i as u32 + 1) << 8) | o[2] as u32)).collect();
+        let mut distinct: Vec<u8> = entries.iter().map(|e| e.0).collect();
+        distinct.sort_unstable();
+        distinct.dedup();
+        if distinct.len() > M {
+            out.st.c05_skipped_overflow += 1;
+            return out;
+        }
+        out.st.c05_streams += 1;
+        let repeats = distinct.len() < entries.len();
+        if repeats {
+            out.st.c05_with_repeats += 1;
+        }
+        out.nontrivial = repeats && entries.len() >= 3;
+        out.trace.push(format!("entry stream {entries:?} -> Map<u8,u32,{M}>"));
+        let mut toks = vec![Tok::MapStart(Some(entries.len()))];
+        for (k, v) in &entries {
+            toks.push(Tok::U8(*k));
+            toks.push(Tok::U32(*v));
+        }
+        toks.push(Tok::MapEnd);
+        let mut bytes: Vec<u8> = (entries.len() as u64).to_le_bytes().to_vec();
+        for (k, v) in &entries {
+            bytes.push(*k);
+            bytes.extend_from_slice(&v.to_le_bytes());
+        }
+        let mut results: Vec<(String, Result<Result<Map<u8, u32, M>, String>, String>)> = Vec::new();
+        for hint in [true, false] {
+            let mut de = TokDe::new(&toks, hint);
+            results.push((format!("token stream (size hints {})", if hint { "exact" } else { "absent" }), silent(|| Map::<u8, u32, M>::deserialize(&mut de).map_err(|e| e.to_string()))));
+        }
+        results.push(("bincode".into(), silent(|| bincode::serde::decode_from_slice::<Map<u8, u32, M>, _>(&bytes, cfg).map(|x| x.0).map_err(|e| e.to_string()))));
+        results.push(("value deserializer".into(), silent(|| Map::<u8, u32, M>::deserialize(MapDeserializer::<_, VErr>::new(entries.clone().into_iter())).map_err(|e| e.to_string()))));
+        for (what, r) in results {
+            out.st.checks += 1;
+            // a deserializer may reject the input (Err) - C05 is about every container that comes back
+            if let Ok(Ok(d)) = r {
+                if let Some(v) = c05_invariants_map(&d, &what) {
+                    if out.viol.is_none() {
+                        out.viol = Some(v);
+                    }
+                }
+            }
+        }
+    } else {
+        let entries: Vec<u16> = case.ops.iter().map(|o| ((o[1] as usize * u) >> 8) as u16 * 257).collect();
+        let mut distinct = entries.clone();
+        distinct.sort_unstable();
+        distinct.dedup();
+        if distinct.len() > M {
+            out.st.c05_skipped_overflow += 1;
+            return out;
+        }
+        out.st.c05_streams += 1;
+        let repeats = distinct.len() < entries.len();
+        if repeats {
+            out.st.c05_with_repeats += 1;
+        }
+        out.nontrivial = repeats && entries.len() >= 3;
+        out.trace.push(format!("element stream {entries:?} -> Set<u16,{M}>"));
+        let mut toks = vec![Tok::SeqStart(Some(entries.len()))];
+        toks.extend(entries.iter().map(|k| Tok::U16(*k)));
+        toks.push(Tok::SeqEnd);
+        let mut bytes: Vec<u8> = (entries.len() as u64).to_le_bytes().to_vec();
+        for k in &entries {
+            bytes.extend_from_slice(&k.to_le_bytes());
+        }
+        let mut results: Vec<(String, Result<Result<Set<u16, M>, String>, String>)> = Vec::new();
+        for hint in [true, false] {
+            let mut de = TokDe::new(&toks, hint);
+            results.push((format!("token stream (size hints {})", if hint { "exact" } else { "absent" }), silent(|| Set::<u16, M>::deserialize(&mut de).map_err(|e| e.to_string()))));
+        }
+        results.push(("bincode".into(), silent(|| bincode::serde::decode_from_slice::<Set<u16, M>, _>(&bytes, cfg).map(|x| x.0).map_err(|e| e.to_string()))));
+        results.push(("value deserializer".into(), silent(|| Set::<u16, M>::deserialize(SeqDeserializer::<_, VErr>::new(entries.clone().into_iter())).map_err(|e| e.to_string()))));
+        for (what, r) in results {
+            out.st.checks += 1;
+            if let Ok(Ok(d)) = r {
+                if let Some(v) = c05_invariants_set(&d, &what) {
+                    if out.viol.is_none() {
+                        out.viol = Some(v);
+                    }
+                }
+            }
+        }
+    }
+    let _ = N;
+    out
 }
 
 fn mix(a: u64, b: u64) -> u64 {
@@ -500,7 +781,17 @@ fn verif_dir() -> PathBuf {
 
 fn main() {
     std::panic::set_hook(Box::new(|_| {}));
-    let args: Vec<String> = std::env::args().collect();
+    let mut args: Vec<String> = std::env::args().collect();
+    // serdechk [C05|C20] quick|thorough|--replay <file>
+    let mut pname = "C20";
+    if args.get(1).map(|s| s == "C05" || s == "C20").unwrap_or(false) {
+        if args[1] == "C05" {
+            pname = "C05";
+            PROP05.store(true, std::sync::atomic::Ordering::Relaxed);
+        }
+        args.remove(1);
+    }
+    let c05 = pname == "C05";
     let mode = args.get(1).map(|s| s.as_str()).unwrap_or("quick");
     if mode == "--replay" {
         let path = args.get(2).expect("file");
@@ -512,10 +803,10 @@ fn main() {
         }
         if let Some(v) = out.viol {
             println!("violated: {v}");
-            println!("VIOLATION property=C20 replay={path}");
+            println!("VIOLATION property={pname} replay={path}");
             std::process::exit(1);
         }
-        println!("replay: property C20 held on this case");
+        println!("replay: property {pname} held on this case");
         return;
     }
     let seed: u64 = std::env::var("VERIF_SEED").ok().and_then(|s| s.parse::<i64>().ok()).map(|x| x as u64).unwrap_or(1);
@@ -526,7 +817,7 @@ fn main() {
         let hs: Vec<_> = (0..16usize)
             .map(|wk| {
                 sc.spawn(move || {
-                    let cfg = Config { cases, failure_persistence: None, rng_seed: RngSeed::Fixed(mix(mix(seed, 2020), wk as u64)), max_shrink_iters: 20000, ..Config::default() };
+                    let cfg = Config { cases, failure_persistence: None, rng_seed: RngSeed::Fixed(mix(mix(seed, if c05 { 505 } else { 2020 }), wk as u64)), max_shrink_iters: 20000, ..Config::default() };
                     let mut runner = TestRunner::new(cfg);
                     let strat = (any::<bool>(), 0u8..6, 0u8..7, 0u8..4, proptest::collection::vec(any::<[u8; 3]>(), 0..=24)).prop_map(|(is_set, cap, dcap, us, ops)| {
                         let n = SRC_CAPS[cap as usize];
@@ -555,6 +846,10 @@ fn main() {
                             s.target_too_small += out.st.target_too_small;
                             s.bincode_roundtrips += out.st.bincode_roundtrips;
                             s.value_roundtrips += out.st.value_roundtrips;
+                            s.token_roundtrips += out.st.token_roundtrips;
+                            s.c05_streams += out.st.c05_streams;
+                            s.c05_with_repeats += out.st.c05_with_repeats;
+                            s.c05_skipped_overflow += out.st.c05_skipped_overflow;
                             s.checks += out.st.checks;
                             if out.nontrivial && nt.borrow_mut().insert(case.hash64()) && samples.borrow().len() < 2 {
                                 samples.borrow_mut().push(case.clone());
@@ -595,6 +890,10 @@ fn main() {
         st.target_too_small += s.target_too_small;
         st.bincode_roundtrips += s.bincode_roundtrips;
         st.value_roundtrips += s.value_roundtrips;
+        st.token_roundtrips += s.token_roundtrips;
+        st.c05_streams += s.c05_streams;
+        st.c05_with_repeats += s.c05_with_repeats;
+        st.c05_skipped_overflow += s.c05_skipped_overflow;
         st.checks += s.checks;
         if samples.len() < 3 {
             samples.extend(sm);
@@ -605,7 +904,7 @@ fn main() {
     }
     // corpus replay
     let mut corpus = 0;
-    if let Ok(rd) = std::fs::read_dir(verif_dir().join("corpus").join("C20")) {
+    if let Ok(rd) = std::fs::read_dir(verif_dir().join("corpus").join(if c05 { "C05-serde" } else { "C20" })) {
         let mut files: Vec<PathBuf> = rd.filter_map(|e| e.ok().map(|e| e.path())).collect();
         files.sort();
         for f in files {
@@ -624,7 +923,7 @@ fn main() {
     if let Some((c, v)) = &viol {
         let dir = verif_dir().join("replays");
         let _ = std::fs::create_dir_all(&dir);
-        let p = dir.join(format!("C20-{:016x}.case", c.hash64()));
+        let p = dir.join(format!("{pname}-serde-{:016x}.case", c.hash64()));
         let out = run_case(c);
         let mut comments = vec![format!("violation: {v}")];
         comments.extend(out.trace);
@@ -646,7 +945,7 @@ fn main() {
         })
         .collect();
     let doc = J::O(vec![
-        ("property_id".into(), J::S("C20".into())),
+        ("property_id".into(), J::S(pname.into())),
         ("tier".into(), J::S(mode.into())),
         ("seed".into(), J::N(seed as i64 as f64)),
         ("level".into(), J::S("exploration".into())),
@@ -655,16 +954,20 @@ fn main() {
             J::O(vec![
                 ("evaluations".into(), J::N(evals as f64)),
                 ("distinct_nontrivial".into(), J::N(nt.len() as f64)),
-                ("rule".into(), J::S("contents built by generated insert/remove histories (internal order varied) in Map<u8,u32,N> / Set<u16,N>, N in {0,1,2,3,5,8}, target capacity M in {0,1,2,3,5,8,12}; round trips through a recording Serializer + serde value deserializers and through bincode(legacy); non-trivial = len >= 2, state produced by >=1 swap-removal, M != N; distinct = case hash".into())),
+                ("rule".into(), J::S(if c05 { "feature serde: generated entry / element streams WITH repeated keys (at most M distinct) deserialized into Map<u8,u32,M> / Set<u16,M> through a token-stream format (size hints exact and absent), bincode(legacy) bytes written by hand and serde's value deserializers; every container that comes back is checked against C05's standing invariants; non-trivial = stream of >= 3 entries with a repeated key; distinct = case hash".into() } else { "contents built by generated insert/remove histories (internal order varied) in Map<u8,u32,N> / Set<u16,N>, N in {0,1,2,3,5,8}, target capacity M in {0,1,2,3,5,8,12}; round trips through a recording Serializer + serde value deserializers and through bincode(legacy); non-trivial = len >= 2, state produced by >=1 swap-removal, M != N; distinct = case hash".to_string() })),
                 ("samples".into(), J::A(if sample_j.is_empty() { vec![J::S("none".into())] } else { sample_j })),
                 ("oracle_checks".into(), J::N(st.checks as f64)),
                 ("value_deserializer_roundtrips".into(), J::N(st.value_roundtrips as f64)),
                 ("bincode_roundtrips".into(), J::N(st.bincode_roundtrips as f64)),
+                ("token_stream_roundtrips_with_and_without_size_hints".into(), J::N(st.token_roundtrips as f64)),
                 ("cases_with_swap_removal".into(), J::N(st.swap_removals as f64)),
                 ("cases_len_ge2".into(), J::N(st.len_ge2 as f64)),
                 ("cases_target_capacity_differs".into(), J::N(st.diff_cap as f64)),
                 ("cases_target_too_small_serialize_only".into(), J::N(st.target_too_small as f64)),
                 ("corpus_cases_replayed".into(), J::N(corpus as f64)),
+                ("c05_streams_deserialized".into(), J::N(st.c05_streams as f64)),
+                ("c05_streams_with_repeated_keys".into(), J::N(st.c05_with_repeats as f64)),
+                ("c05_streams_skipped_more_distinct_keys_than_capacity".into(), J::N(st.c05_skipped_overflow as f64)),
                 ("exhaustive".into(), J::B(false)),
             ]),
         ),
@@ -675,13 +978,14 @@ fn main() {
     let mut s = String::new();
     doc.write(&mut s, 0);
     s.push('\n');
-    let dir = verif_dir().join("evidence");
+    // C05's evidence file is written by the history runner; this part is attached to it
+    let dir = if c05 { std::env::var("VERIF_EVIDENCE_DIR").map(PathBuf::from).unwrap_or_else(|_| verif_dir().join("work")) } else { verif_dir().join("evidence") };
     let _ = std::fs::create_dir_all(&dir);
-    let _ = std::fs::write(dir.join("C20.json"), s);
-    println!("C20 {mode}: {evals} cases, {} distinct non-trivial, {} oracle checks, {wall:.1}s", nt.len(), st.checks);
+    let _ = std::fs::write(dir.join(if c05 { "C05.serde.json" } else { "C20.json" }), s);
+    println!("{pname} {mode} (serde feature): {evals} cases, {} distinct non-trivial, {} oracle checks, {wall:.1}s", nt.len(), st.checks);
     if let Some((_, v)) = viol {
         println!("violated: {v}");
-        println!("VIOLATION property=C20 replay={}", replay.unwrap().display());
+        println!("VIOLATION property={pname} replay={}", replay.unwrap().display());
         std::process::exit(1);
     }
 }
